@@ -523,6 +523,7 @@ def _known_not_none(x):
     return at.kind in ('str', 'tuple', 'list', 'dict', 'closure', 'new', 'bool', 'seq', 'func', 'class')
 
 
+LIST_ATTRS = set()         # attribute names that always hold a list (model.py)
 NOTNONE_CALLS = set()      # package functions whose every return statement yields a value that cannot be None (model.py)
 NUMERIC_RESULT = {'trunc', 'floordiv', 'mod', 'min', 'max', 'meshgrid', 'zeros', 'ones', 'full', 'empty', 'linspace', 'arange', 'array', 'diff', 'reshape', 'repeat',
                   'concatenate', 'append', 'abs', 'sqrt', 'exp', 'log', 'cos', 'sin', 'round', 'floor', 'ceil', 'mean', 'sum',
@@ -543,6 +544,8 @@ def truthy(t):
         return TRUE
     if at is not None and at.kind in ('tuple', 'list', 'dict', 'str'):
         return TRUE if (at.args and at.args != ('',)) else FALSE
+    if at is not None and at.kind == 'attr' and at.args[1] in LIST_ATTRS:
+        return mk_not(mk_cmp('==', mk_call('len', [t]), Term.num(0)))      # a list is true iff it is not empty
     return t
 
 
@@ -743,6 +746,12 @@ def mk_call(fn, args=(), kwargs=()):
         cs = [a.const() for a in args]
         if all(c is not None for c in cs) and cs:
             return Term.num(min(cs) if fn in ('min', 'minimum') else max(cs))
+        if len(args) == 2 and fn in ('min', 'max'):
+            d = (args[0] - args[1]).const()
+            if d is not None:
+                # the two differ by a constant: min(n, n - 1) == n - 1
+                smaller, larger = (args[0], args[1]) if d <= 0 else (args[1], args[0])
+                return smaller if fn == 'min' else larger
         args = sorted(args, key=lambda a: a.key)
     if fn == 'floordiv' and len(args) == 2:
         a, b = args
@@ -925,6 +934,14 @@ def mk_sub(base, idx):
                     return v
         if at.kind == 'ite':
             return mk_ite(at.args[0], mk_sub(at.args[1], idx), mk_sub(at.args[2], idx))
+        if at.kind == 'sub':
+            # (X[a:])[i] == X[a + i]   for a constant a >= 0 and an index i >= 0
+            sl = at.args[1].single_atom()
+            if sl is not None and sl.kind == 'slice' and _isnone(sl.args[1]) and _isnone(sl.args[2]):
+                a0 = sl.args[0].const()
+                if a0 is not None and a0 >= 0 and a0.denominator == 1 and idx.single_atom() is not None and \
+                        idx.single_atom().kind == 'idx':
+                    return mk_sub(at.args[0], sl.args[0] + idx)
         if at.kind == 'call' and at.args[0] == 'mut.append' and len(at.args[1]) == 2:
             # (L + [v])[len(L)] is v ; (L + [v])[k] for a constant k >= 0 below a literal L's length is L[k]
             L, v = at.args[1]
